@@ -211,6 +211,21 @@ CLAIMED["C05"] = dict(
     ref="DESIGN.md section 2 (C04-C09)",
     technique="TLA+ per-macro semantics evaluated by TLC as oracle for arena behaviours")
 
+CLAIMED["C08"] = dict(
+    text="The pointer part of StlSem.tla models a pointer as the signed index of the cell it points to, a buffer as one byte per op, the stack as such a "
+         "buffer with sp a pointer into it, and gives one action per documented macro: hex.ptr_inc/dec/add/sub/index, read_hex/byte (single, and_inc, n, nth), "
+         "write_hex/byte (single, and_inc, n, nth), xor_hex/byte_to_ptr (single, and_inc, n), xor_hex/byte_from_ptr, zero_ptr, ptr_flip, ptr_flip_dbit, ptr_wflip, "
+         "ptr_wflip_2nd_word, ptr_jump, push_hex/byte, pop_hex/byte, push n, pop n, sp_inc/dec/add/sub, stl.get_sp, the bit-namespace ptr_inc/dec/jump/flip/"
+         "flip_dbit/wflip/wflip_2nd_word/xor_to_ptr/xor_from_ptr (w = 16, 32, 64), and call trees of stl.call/return, call with parameters, fcall/fret, "
+         "balanced push/pop around calls and run-time recursion. The arena device translates index <-> address, points the pointers at every cell of the "
+         "buffers, runs sequences of macro applications without resetting the library's shared to_flip/to_jump ops, and TLC (Trace_Stl) prescribes after "
+         "every step every variable, every cell of every buffer (data byte and flip-word view: the 'nowhere else' clause), the branch taken, sp and the output.",
+    note="Trusted: StlSem.tla (pointer part) as transcription of the documentation. Pointed cells lie inside the observed buffers (12 cells, first 40 stack cells); "
+         "preconditions are evaluated on TLC's states and a behaviour is judged up to the first step that leaves them. Memory outside the observed variables, "
+         "buffers and library labels is not compared. Values and sequences are seeded samples; the block set of an arena is bounded by assembly time.",
+    ref="DESIGN.md section 2 (C04-C09)",
+    technique="TLA+ pointer/stack/call semantics evaluated by TLC as oracle for arena behaviours over an index<->address abstraction")
+
 CLAIMED["C09"] = dict(
     text="The IO part of StlSem.tla gives the state an input and an output bit stream and one action per documented macro: hex.input_hex/input/"
          "input_as_hex/input_dec_uint(_until)/input_dec_int(_until), hex.output/print/print_as_digit/print_uint/print_int/print_dec_uint/print_dec_int, "
